@@ -286,3 +286,64 @@ MUTANTS = [
          old='            lo = result["end"].values.searchsorted(start, side="right")\n            hi = lo + result["start"].values[lo:].searchsorted(end, side="left")\n            result = result.iloc[lo:hi]\n        return result\n\n\ndef buffered',
          new='            lo = result["end"].values.searchsorted(start, side="left")\n            hi = lo + result["start"].values[lo:].searchsorted(end, side="left")\n            result = result.iloc[lo:hi]\n        return result\n\n\ndef buffered', checks=["segmentation"]),
 ]
+
+
+# ---------------------------------------------------------------------------
+# thousands of bins per chromosome: range bounds at and beside the starts of bins whose number is a multiple of an internal
+# block size a look-up might use (powers of two, powers of ten)
+# ---------------------------------------------------------------------------
+def many_bins_body(env, p):
+    """A chromosome with `nb` bins (variable widths 7..15, or fixed width 10 with a short last bin) after a small first chromosome.
+    The solver picks the range bounds out of the positions {start of bin k} + {-1, 0, +1} for k a multiple of 512 or 1000 (and the last
+    bins); the selected bins must be the overlapping ones. Everything but the two bounds is concrete, so this is a scale case decided by
+    enumerating the solver's choices of bounds - reported as such."""
+    import pandas as pd
+    from .common import scratch_file
+    env.reset()
+    nb, kind = p["nb"], p["kind"]
+    rows = [("c0", 0, 10), ("c0", 10, 20)]
+    pos = 0
+    for k in range(nb):
+        w = 10 if kind == "fixed" else 7 + (k * 5) % 9
+        rows.append(("c1", pos, pos + w))
+        pos += w
+    if kind == "fixed":
+        rows[-1] = ("c1", rows[-1][1], rows[-1][1] + 4)
+    bins = pd.DataFrame(rows, columns=["chrom", "start", "end"])
+    L = int(bins["end"].iloc[-1])
+    path = scratch_file("c04big.cool")
+    env.build_cooler(path, bins, [0], [1], {"count": [1]}, True)
+    clr = env.cooler.Cooler(path)
+    starts, ends = bins["start"].tolist(), bins["end"].tolist()
+    marks = sorted({k for k in range(2, nb + 2) if (k - 2) % 512 == 0 or (k - 2) % 1000 == 0} | {nb, nb + 1})
+    cands = sorted({min(max(starts[k] + d, 0), L) for k in marks for d in (-1, 0, 1)} | {L})
+    a, d = env.choice("a", len(cands)), env.choice("d", 6)
+    # the end: the same position (empty range), one of the next three candidate positions, the candidate 10 further on, or the chromosome end
+    start, end = cands[a], (cands[min(a + d, len(cands) - 1)] if d < 4 else cands[min(a + 10, len(cands) - 1)] if d == 4 else L)
+    if known_active("F16"):
+        env.assume(not (start == end and end == L))
+    env.cover("fixed_path", clr.binsize is not None)
+    env.cover("variable_path", clr.binsize is None)
+    i0, i1 = clr.extent(("c1", start, end))
+    sel = [k for k in range(2, nb + 2) if (starts[k] < end and ends[k] > start)] if start < end else None
+    if sel is not None:
+        env.check(bool(i0 == sel[0]) and bool(i1 == sel[-1] + 1), f"extent(c1:{start}-{end}) = ({i0}, {i1}), the overlapping bins are {sel[0]}..{sel[-1]}")
+    else:
+        inside = [k for k in range(2, nb + 2) if starts[k] <= start < ends[k]]
+        env.check(bool(i0 == i1) or (bool(i1 == i0 + 1) and [int(i0)] == inside), f"empty range at {start}: extent ({i0}, {i1}) selects a bin that does not contain it")
+    tab = clr.bins().fetch(("c1", start, end))
+    env.check(list(tab.index) == list(range(int(i0), int(i1))), "bins().fetch rows are not the bins of the extent")
+    return [int(i0), int(i1)]
+
+
+many_sym, many_real = both(many_bins_body)
+
+CHECKS.append(Check("many_bins", lambda tier: [dict(nb=4500, kind="variable"), dict(nb=2100, kind="fixed")] if tier == "quick" else
+                    [dict(nb=4500, kind="variable"), dict(nb=9000, kind="variable"), dict(nb=2100, kind="fixed"), dict(nb=8200, kind="fixed")],
+                    many_sym, many_real, labels=("fixed_path", "variable_path"),
+                    doc="scale case: a chromosome with thousands of bins; range bounds chosen by the solver among the starts (+-1) of the bins numbered "
+                        "k*512 and k*1000 and the chromosome end; extent and bins().fetch select the overlapping bins (concrete table, decided by "
+                        "enumerating the solver's choices)",
+                    bounds=dict(quick="4500 variable-width / 2100 fixed-width bins", thorough="up to 9000 bins"),
+                    stubs=("E3",), outside=("bounds elsewhere in such a chromosome (the small-table checks cover every position relative to a bin edge)",),
+                    timeout=2400, split_depth=6))
